@@ -285,6 +285,10 @@ class _ProxyLookup:
             def bind_f(
                 instance: LocalProxy[t.Any], obj: t.Any
             ) -> t.Callable[..., t.Any]:
+                if obj is None:
+                    # __get__(None, ...) returns the plain function.
+                    return partial(f, obj)
+
                 return f.__get__(obj, type(obj))  # type: ignore
 
         elif f is not None:
@@ -366,6 +370,9 @@ class _ProxyIOp(_ProxyLookup):
             def i_op(self: t.Any, other: t.Any) -> LocalProxy[t.Any]:
                 f(self, other)  # type: ignore
                 return instance
+
+            if obj is None:
+                return partial(i_op, obj)
 
             return i_op.__get__(obj, type(obj))  # type: ignore
 
